@@ -109,6 +109,10 @@ CASES = {
     "extra-species+modifiers": (lambda: dict(example_request("minimal"), allowed=["H", "C2", "C", "CH", "H2", "C2H"], extra=["H2", "C2H"], rate_modifier={4894: "1.5e-10*zeta"}, ode_modifier={"H": {"factors": ["2.0"], "reactants": [["C", "CH"]]}}), ["dense"], "plain"),
     # extra (required) species without any allowed-species restriction: the empty allowed list means "no restriction"
     "extra-species-only": (lambda: base_request(files=["ice.naunet"], formats=["naunet"], elements=["H", "C", "O"], pseudo_elements=["CR"], grain_model="hh93", extra=["O2", "CH", "#O2"], _ice=True), ["dense"], "plain"),
+    # an element list with an explicitly *empty* pseudo-element list: nothing is a pseudo element, so a species named like a
+    # built-in one (the third body M) is an ordinary species
+    "empty-pseudo-list": (lambda: base_request(files=["m.krome"], formats=["krome"], elements=["H", "C", "M"], pseudo_elements=[],
+                                               _files={"m.krome": "@format:idx,R,R,R,P,P,P,Tmin,Tmax,rate\n1,H,H,M,H2,M,,NONE,NONE,1d-30\n2,C,H,,CH,,,NONE,NONE,1d-17\n3,CH,M,,C,H,M,10,1d4,2.5d-11*T32\n"}), ["dense"], "plain"),
     # a network file without reaction indices (numbered 0, 1, ... in joining order) with a modifier on reaction 0
     "unindexed-krome-modifier-0": (lambda: base_request(files=["u.krome"], formats=["krome"], elements=["H", "C"], pseudo_elements=[], rate_modifier={0: "1.25e-10", 2: "3.5e-11*Tgas"},
                                                         _files={"u.krome": "@format:R,R,P,P,Tmin,Tmax,rate\nC,C,C2,,NONE,NONE,2.5d-10*T32\nC,H,CH,,NONE,NONE,1d-17\nCH,H,C,H2,10,1d4,1.1d-10*T32**0.5\n"}), ["dense"], "plain"),
